@@ -1,0 +1,39 @@
+//go:build verif
+
+package query
+
+import (
+	"fmt"
+	"strings"
+)
+
+// VerifToken is one token of the query-string lexer, for the verification harness.
+type VerifToken struct {
+	Type string
+	Text string
+}
+
+var verifTokenNames = map[int]string{
+	tSTRING: "STRING", tPHRASE: "PHRASE", tPLUS: "PLUS", tMINUS: "MINUS", tCOLON: "COLON", tBOOST: "BOOST",
+	tNUMBER: "NUMBER", tGREATER: "GREATER", tLESS: "LESS", tEQUAL: "EQUAL", tTILDE: "TILDE",
+}
+
+// VerifLexQueryString runs the query-string lexer alone over s and returns its tokens; errMsg holds
+// the lexer's panic message (the parser turns it into a parse error) when there is one.
+func VerifLexQueryString(s string) (toks []VerifToken, errMsg string) {
+	qsl := getQueryStringLex(strings.NewReader(s))
+	defer putQueryStringLex(qsl)
+	defer func() {
+		if r := recover(); r != nil {
+			errMsg = fmt.Sprint(r)
+		}
+	}()
+	for {
+		var lval yySymType
+		t := qsl.Lex(&lval)
+		if t == 0 {
+			return toks, ""
+		}
+		toks = append(toks, VerifToken{Type: verifTokenNames[t], Text: lval.s})
+	}
+}
